@@ -281,7 +281,7 @@ theorem opSteps_phase0NoDeposits (cfg : Config) (S0 : State) (p Bm C : Nat) (K :
     fork := fun _ _ _ h => by rw [h.base.slash.fork]; exact hF
     header := fun k ctx st hi => p0a_header cfg S0 p Bm C block k ctx st hi
     payload := fun ctx payload hpl => by rw [hb.payload] at hpl; cases hpl
-    withdrawals := fun ctx payload hpl => by rw [hb.payload] at hpl; cases hpl
+    withdrawals := fun _ ctx payload hpl => by rw [hb.payload] at hpl; cases hpl
     randao := fun ctx => p0a_randao cfg S0 p Bm C K KA block ctx
     eth1 := fun ctx => p0a_eth1 cfg S0 p Bm C K block ctx
     proposerSlashing := fun ctx => p0a_proposerSlashing cfg S0 p Bm C K _ ctx
